@@ -186,3 +186,14 @@ Example c06_writes_example :
   | None => False
   end.
 Proof. vm_compute. repeat split. eexists. reflexivity. Qed.
+
+(* the tie's runner for these theorems (extracted op 62: every reset token served at once) is a conservative extension of the
+   runner every other connection-level comparison uses (op 60): same actions in the same order apart from additional
+   keep-alive arm operations, on every input sequence without timer expiries *)
+From Verif Require Import Dispatch TimedWTie.
+Theorem c06_op62_conservative : forall cf pl ins xs,
+  forallb no_timer ins = true ->
+  ts_conn (xs_t (fst (xrun_auto cf pl xs ins))) = fst (conn_run_auto cf pl (ts_conn (xs_t xs)) ins)
+  /\ filter not_armka (snd (xrun_auto cf pl xs ins)) = filter not_armka (snd (conn_run_auto cf pl (ts_conn (xs_t xs)) ins)).
+Proof. exact xrun_auto_conservative. Qed.
+Print Assumptions c06_op62_conservative.
